@@ -4,6 +4,8 @@ import sys, subprocess
 pid, wt = sys.argv[1], sys.argv[2]
 base = subprocess.run(['/verif/tools/seed_prompt2.py', pid, wt], capture_output=True, text=True).stdout
 extra = ("\nFURTHER GUIDANCE FOR THIS ROUND:\n"
+         "- The demo scripts will be re-run from ANOTHER copy of the repository: they must not assert where setigen was imported from, and must "
+         "not depend on the current working directory (write scratch files to a tempfile.mkdtemp() directory).\n"
          "- NOT acceptable (they will be rejected): changes whose only observable effect is within floating-point rounding of the inputs "
          "(exact ties, values one ulp from a tie, results differing by an ulp), and changes to behaviour the property does not state "
          "(storage dtype, tie-breaking rule, wording of messages). The demonstration must show a difference a user would call wrong: a "
@@ -12,5 +14,7 @@ extra = ("\nFURTHER GUIDANCE FOR THIS ROUND:\n"
          "argument plumbing (defaults, keyword forwarding, unit handling, type coercion of inputs such as lists / tuples / numpy scalars / "
          "Quantities), module-level state, `__init__`/`__getstate__`/`copy` hooks, error paths (what is left behind when an exception is "
          "raised half-way), and objects shared between two instances. Two cooperating edits in different files are welcome.\n"
-         "")
+         "- Also worth exploring: rarely used keyword arguments and optional code paths of the public functions involved; alternative but "
+         "valid input types; the same object used for two different kinds of calls; the order in which independent steps are taken; "
+         "values at the edges of what the constructor admits (smallest sizes, single element axes, largest realistic magnitudes).\n")
 print(base + extra)
